@@ -15,20 +15,21 @@ import vlib
 
 
 def body(c):
+    if c.replay:
+        return S.replay_file(c)
     q = c.quick
     rnd = random.Random(c.seed)
     if q:
         S.mc_sw(c, "1session-2streams", S.sw_consts(2, 2, (2, 3), 2, 2, 2, ("full", "incr"), 1, 1, 3), timeout=300, workers=8)
     else:
-        S.mc_sw(c, "2sessions-2streams", S.sw_consts(2, 2, (2, 3), 2, 2, 2, ("full", "incr"), 2, 2, 3), timeout=1500,
+        S.mc_sw(c, "2sessions-2streams", S.sw_consts(2, 2, (2, 3), 2, 2, 2, ("full", "incr"), 2, 2, 3), timeout=1500)
+        S.mc_sw(c, "1session-3entries", S.sw_consts(2, 2, (2, 3, 5), 3, 2, 2, ("full", "incr"), 1, 1, 4), timeout=1500,
                 coverage=True)
-        S.mc_sw(c, "1session-3entries", S.sw_consts(2, 2, (2, 3, 5), 3, 2, 2, ("full", "incr"), 1, 1, 4), timeout=1500)
     levels = 4 if q else rnd.choice([3, 4, 7])
     gen = S.sw_consts(2, 2, (2, 3, 5, 8), 4, 3, 2, ("full", "incr"), 2, 3, levels)
-    n = 400 if q else 6000
+    n = 400 if q else 2500
     cases = S.gen_sw(c, "2streams-2sessions-L%d" % levels, gen, n, c.seed, workers=4 if q else 8, timeout=300 if q else 900)
-    if q:
-        cases = rnd.sample(cases, min(len(cases), 450))
+    cases = rnd.sample(cases, min(len(cases), 450 if q else 1800))
     confs = ["default"] if q else ["default", "snappy", "enc"]
     feats, keys = {}, set()
     for h in cases:
@@ -37,19 +38,23 @@ def body(c):
             feats[f] = feats.get(f, 0) + 1
         if fs & {"key_with_several_versions", "batch_mixes_streams", "done_marker"}:
             keys.add(S.short_sw(h))
+    nrep = 0
     for conf in confs:
-        S.replay_sw(c, cases, levels, conf, "2streams-2sessions-L%d" % levels)
+        sub = cases if conf == "default" else cases[:700]      # compression / encryption: a subset
+        S.replay_sw(c, sub, levels, conf, "2streams-2sessions-L%d" % levels, timeout=1200)
+        nrep += len(sub)
     if not q:
         # three streams, one session, longer streams
         gen3 = S.sw_consts(3, 2, (2, 3, 5), 5, 3, 2, ("full", "incr"), 1, 2, 4)
-        cases3 = S.gen_sw(c, "3streams-1session", gen3, 3000, c.seed + 1, workers=8, timeout=900)
+        cases3 = S.gen_sw(c, "3streams-1session", gen3, 1000, c.seed + 1, workers=8, timeout=900)
         S.replay_sw(c, cases3, 4, "default", "3streams-1session")
         for h in cases3:
             for f in S.sw_features(h):
                 feats[f] = feats.get(f, 0) + 1
             keys.add(S.short_sw(h))
         cases = cases + cases3
-    c.add_cases(len(cases) * len(confs), keys, traces=len(cases) * len(confs))
+        nrep += len(cases3)
+    c.add_cases(nrep, keys, traces=nrep)
     c.cov["case_features"] = feats
     need = ["key_with_several_versions", "batch_mixes_streams", "done_marker", "prepare_incr", "prepare_full",
             "value_at_or_above_threshold", "delete_marker_streamed"]
@@ -57,7 +62,7 @@ def body(c):
     if miss:
         raise vlib.Inconclusive("generator produced no case with: %s" % miss)
     cuts = sum(e.get("sessions_in_which_a_table_was_cut", 0) for e in c.cov["engines"])
-    if cuts * 4 < len(cases) * len(confs):
+    if cuts * 4 < nrep:
         raise vlib.Inconclusive("tables were hardly ever cut (%d sessions with a cut in %d cases)" % (cuts, len(cases)))
     for h in cases[:3]:
         c.sample(S.short_sw(h))
